@@ -151,6 +151,9 @@ func (r *Rec) Violate(sig, what string, replay any) {
 	}
 	r.viol[sig] = &Violation{Sig: sig, What: what, Count: 1, Replay: replay}
 	r.violOrder = append(r.violOrder, sig)
+	if len(r.violOrder) <= 12 {
+		r.writeLocked(".partial")
+	}
 	if strings.Contains(what, StuckMarker) {
 		// the server under test is deadlocked: nothing more can be learnt from this process, and
 		// shutting it down would wait for the stuck request for ever. Record and leave.
@@ -177,6 +180,14 @@ func Journal(c any) {
 func (r *Rec) Write() error {
 	r.mu.Lock()
 	defer r.mu.Unlock()
+	return r.writeLocked("")
+}
+
+// writeLocked writes the record (r.mu held). With a suffix it is a checkpoint: the record as it
+// stands after a violation was judged, kept next to $VERIF_OUT so that a monitor that never
+// reaches its end afterwards (the server under test hangs in an API call, the child is killed by
+// the driver's watchdog) still delivers the verdicts it had already reached.
+func (r *Rec) writeLocked(suffix string) error {
 	keys := make([]string, 0, len(r.distinct))
 	for k := range r.distinct {
 		keys = append(keys, k)
@@ -200,14 +211,19 @@ func (r *Rec) Write() error {
 		"assumptions": r.Assumptions, "wall_s": time.Since(r.start).Seconds(),
 		"min_distinct": r.MinDistinct, "infra": r.infra,
 	}
+	if suffix != "" {
+		out["partial"] = true
+	}
 	b, err := json.MarshalIndent(out, "", " ")
 	if err != nil {
 		return err
 	}
 	p := os.Getenv("VERIF_OUT")
 	if p == "" {
-		fmt.Println(string(b))
+		if suffix == "" {
+			fmt.Println(string(b))
+		}
 		return nil
 	}
-	return os.WriteFile(p, b, 0644)
+	return os.WriteFile(p+suffix, b, 0644)
 }
